@@ -227,7 +227,7 @@ def main(argv=None):
     results = _run_all(pid, cases, tier, a.jobs)
     # ---- merge
     tot = dict(paths=0, aborted=0, obligations=0, nontrivial=0, discharged=0, by_rewriter=0, paths_with_obs=0, queries=0, unsat=0, sat=0, n_unknown=0,
-               branch_unknown=0, solver_s=0.0)
+               branch_unknown=0, solver_s=0.0, hunts=0, by_abstraction=0)
     by_name, funcs, samples, cexs, unknowns, bad, truncated = {}, set(), [], [], [], [], []
     per_case = []
     for r in results:
@@ -336,6 +336,9 @@ def main(argv=None):
             functions_encoded=sorted(funcs), bounds=getattr(mod, "bounds", lambda t: {})(tier),
             cases=len(cases), per_case=per_case if len(per_case) <= 60 else per_case[:60],
             counterexamples_found=len(cexs), counterexamples_reproduced_on_real_stack=len(violations) + len([1 for _ in known_hits]),
+            search_only_obligations=dict(tried=tot["hunts"], note="search-only obligations state a clause directly where the solver cannot decide it; sat => counterexample (replayed), "
+                                         "unsat/unknown => nothing concluded; they are not counted in obligations/discharged unless they produced a counterexample"),
+            queries_decided_by_monomial_abstraction=tot["by_abstraction"],
             known_findings_hit=[k["key"] for k in known_hits], exhaustive=bool(not tot["nontrivial"] and not truncated),
             status=status, partial=bool(a.only), cross_check=xcheck,
             not_decided=dict(unknown_obligations=unknowns[:10], unreproduced=unreproduced[:5], harness_errors=[dict(case=b["case"], error=b["error"]) for b in bad][:10],
